@@ -92,10 +92,23 @@ impl Hist {
         let client = TestClient::new();
         let log = TestLog::new(tlen, mtu, init, n0, off0, SESSION, STREAM);
         let limit = UnsafeBufferPosition::new(client.counter_values_buffer(), 1);
+        // The position object handed to the publication: in every other geometry it is one that was first bound to another
+        // counter (id 5, holding a decoy limit that would admit everything) and then re-bound with `wrap` to the limit counter -
+        // after a re-bind the publication must read the limit counter's slot and nothing else.
+        let plimit = if (init as i64 + n0 as i64 + (off0 / 32) as i64) % 2 == 0 {
+            let decoy = UnsafeBufferPosition::new(client.counter_values_buffer(), 5);
+            decoy.set(i64::MAX);
+            let mut p = decoy.clone();
+            p.wrap(&limit);
+            assert_eq!(p.id(), 1, "wrap must take over the id of the position it is bound to");
+            p
+        } else {
+            limit.clone()
+        };
         let chan = CString::new("aeron:ipc").unwrap();
         let p = match kind {
-            "s" => Pubn::S(Publication::new(client.conductor.clone(), chan, 7, 7, STREAM, SESSION, limit.clone(), -1, log.log_buffers.clone())),
-            "x" => Pubn::X(ExclusivePublication::new(client.conductor.clone(), chan, 7, STREAM, SESSION, limit.clone(), -1, log.log_buffers.clone())),
+            "s" => Pubn::S(Publication::new(client.conductor.clone(), chan, 7, 7, STREAM, SESSION, plimit, -1, log.log_buffers.clone())),
+            "x" => Pubn::X(ExclusivePublication::new(client.conductor.clone(), chan, 7, STREAM, SESSION, plimit, -1, log.log_buffers.clone())),
             other => panic!("unknown case kind {}", other),
         };
         let prev = [vec![0u8; tlen as usize], vec![0u8; tlen as usize], vec![0u8; tlen as usize]];
@@ -106,6 +119,66 @@ impl Hist {
         match &self.p {
             Pubn::S(p) => fmt_result(catch(|| p.position())),
             Pubn::X(p) => fmt_result(catch(|| p.position())),
+        }
+    }
+
+    /// the getters that reflect the flow-control state, as
+    /// (is_closed, is_connected, publication_limit(), available_window(), position(), term_id, term_offset);
+    /// the last two are the exclusive publication's own cursor (0 for the shared publication)
+    pub fn getters(&self) -> String {
+        fn b(v: bool) -> i64 {
+            if v {
+                1
+            } else {
+                0
+            }
+        }
+        match &self.p {
+            Pubn::S(p) => format!(
+                "({}, {}, {}, {}, {}, 0, 0)",
+                b(p.is_closed()),
+                b(p.is_connected()),
+                fmt_result(catch(|| p.publication_limit())),
+                fmt_result(catch(|| p.available_window())),
+                fmt_result(catch(|| p.position()))
+            ),
+            Pubn::X(p) => format!(
+                "({}, {}, {}, {}, {}, {}, {})",
+                b(p.is_closed()),
+                b(p.is_connected()),
+                fmt_result(catch(|| p.publication_limit())),
+                fmt_result(catch(|| p.available_window())),
+                fmt_result(catch(|| p.position())),
+                p.term_id(),
+                p.term_offset()
+            ),
+        }
+    }
+
+    /// the getters fixed at construction:
+    /// [max_message_length; max_payload_length; term_buffer_length; position_bits_to_shift; initial_term_id; session_id; stream_id]
+    pub fn statics(&self) -> String {
+        match &self.p {
+            Pubn::S(p) => format!(
+                "[{}; {}; {}; {}; {}; {}; {}]",
+                p.max_message_length(),
+                p.max_payload_length(),
+                p.term_buffer_length(),
+                p.position_bits_to_shift(),
+                p.initial_term_id(),
+                p.session_id(),
+                p.stream_id()
+            ),
+            Pubn::X(p) => format!(
+                "[{}; {}; {}; {}; {}; {}; {}]",
+                p.max_message_length(),
+                p.max_payload_length(),
+                p.term_buffer_length(),
+                p.position_bits_to_shift(),
+                p.initial_term_id(),
+                p.session_id(),
+                p.stream_id()
+            ),
         }
     }
 
@@ -228,4 +301,22 @@ pub fn run_history(spec: &str) -> String {
         out.push(hist.observe(r));
     }
     format!("[{}]", out.join("; "))
+}
+
+/// runs a history and reports the getters instead of the log: (statics, [getters at hand-over; getters after op 1; ...])
+pub fn run_getters(spec: &str) -> String {
+    let (head, ops) = spec.split_once('|').unwrap_or((spec, ""));
+    let h: Vec<&str> = head.split_whitespace().collect();
+    let g: Vec<i64> = h[1..].iter().map(|x| x.parse::<i64>().unwrap_or_else(|_| panic!("bad int {}", x))).collect();
+    let mut hist = Hist::new(h[0], g[0] as i32, g[1] as i32, g[2] as i32, g[3] as i32, g[4] as i32);
+    let mut out: Vec<String> = vec![hist.getters()];
+    for op in ops.split(';') {
+        let op = op.trim();
+        if op.is_empty() {
+            continue;
+        }
+        let _ = hist.step(op);
+        out.push(hist.getters());
+    }
+    format!("({}, [{}])", hist.statics(), out.join("; "))
 }
